@@ -6,6 +6,21 @@ import os
 ROOT = os.path.dirname(os.path.dirname(os.path.abspath(__file__)))
 
 CHECKS = {
+    'C05': ('model_checking', '§7 C05',
+            'KevoIter transcribes the merging iterator, the range wrapper and the key filter operationally; TLC checks them against the '
+            'abstract definition for all small arrangements (with the inductive invariant CursorsConsistent linking steps). TLC-generated '
+            'arrangements + cursor programs (predicted position and supplying source after every operation) are replayed on the real engine '
+            'with layers realised as table files, immutable memtables, mixed, and as a transaction buffer over stored layers; running scans '
+            'stepped between foreign writes/flush/compaction are validated by TLC against TRACE_Scan.',
+            'bounded model; service-level scan options under C19; running-scan schedules sampled at Next granularity',
+            'TLC MC of transcribed algorithms + replay of generated cursor programs + TLC trace validation of running scans'),
+    'C17': ('model_checking', '§7 C17',
+            'KevoTxn with the registry actions model-checked (UnlockByHolder, QuiescentLockFree; liveness EveryTxEnds under fairness of grants, '
+            'clients and reaper). Recorded histories validated by TLC: registry scenarios (abandon + idle/lifetime/connection/shutdown cleanup, '
+            'a begin timing out after 10 s with its late grant) each followed by the probe that a fresh read-write transaction is granted, '
+            'and free-running histories with double finish / use after finish.',
+            'two transactions per client excluded; lifetime limit only in thorough tier; gRPC variants under C19',
+            'TLC MC (safety+liveness) + TLC trace validation of recorded registry scenarios and histories'),
     'C02': ('fault_enumeration', '§7 C02',
             'KevoStore is model-checked to implement the client-level durability contract KevoDurable (what reached the OS is always a '
             'prefix of the issue order; with synchronous logging it holds every acknowledged write; a batch is one log element), including '
